@@ -49,7 +49,7 @@ type Case struct {
 	InferTasks      bool            `json:"infer_tasks"`
 	FindHiddenTasks bool            `json:"find_hidden_tasks"`
 	Fail            string          `json:"fail,omitempty"`      // instance path whose runner fails
-	FailMode        string          `json:"fail_mode,omitempty"` // error | abort
+	FailMode        string          `json:"fail_mode,omitempty"` // error | abort | conflict (the result contradicts the configuration)
 	Stall           []string        `json:"stall,omitempty"`     // instance paths that finish only when nothing else can run
 	CancelAfter     int             `json:"cancel_after,omitempty"` // >0: a canceller task cancels the context after that many of its own steps
 	// UpdatePark: probability that the controller parks in Config.UpdateFunc (an existing callback seam,
@@ -359,7 +359,14 @@ func gen(seed uint64, tier string, idx int) sim.CaseI {
 		switch kr.Intn(10) {
 		case 0, 1, 2:
 			c.Fail = m.order[kr.Intn(len(m.order))]
-			c.FailMode = []string{"error", "abort"}[kr.Intn(2)]
+			c.FailMode = []string{"error", "abort", "conflict"}[kr.Intn(3)]
+			// A result that contradicts the configuration is an error of the workflow only where the
+			// controller looks for errors: under Config.Root. (For a task outside the root the
+			// contradiction stays local to a field nobody may refer to; what should happen then is
+			// not something the property speaks about.)
+			if in := m.insts[c.Fail]; c.FailMode == "conflict" && (in == nil || c.Tasks[in.spec].Place == "ext") {
+				c.FailMode = "error"
+			}
 		case 3:
 			c.CancelAfter = kr.Range(1, 2*len(m.order))
 			// With the controller parked in UpdateFunc a cancellation can become ready together with a
@@ -813,6 +820,12 @@ func (r runner) Run(t *flow.Task, _ error) error {
 		h.record(event{kind: "end", path: path, fail: true})
 		if h.c.FailMode == "abort" {
 			return flow.ErrAbort
+		}
+		if h.c.FailMode == "conflict" {
+			// the runner succeeds, but what it fills in contradicts the configuration (out: string):
+			// the task has not completed successfully and its results cannot be filled in
+			t.Fill(map[string]any{"out": 7})
+			return nil
 		}
 		return errors.New("injected task failure")
 	}
